@@ -12,6 +12,8 @@ KIND = {"mn": 0, "mo": 1, "mtext": 2}
 def gen_number(rng, block, dec, sepch=None):
     """(text, groups): a number of the locale grammar: 1-3 digit lead, 3-digit groups, optional fraction / leading / trailing decimal mark"""
     sep = sepch if sepch is not None else rng.choice([c for c in block if c in ",.'"] or [","])
+    if sepch is None and NBSP in block and rng.random() < 0.2:
+        sep = NBSP          # a space as group separator: generators write it as mtext / mo / mspace tokens (tokens_full_split)
     ngroups = rng.choice([0, 1, 1, 2, 3])
     lead = str(rng.randrange(1, 10 ** rng.randrange(1, 4)))
     groups = [lead] + ["%03d" % rng.randrange(0, 1000) for _ in range(ngroups)]
@@ -35,6 +37,8 @@ def tokens_full_split(parts, rng):
     for k, v in parts:
         if k == "dig":
             toks.append(("mn", v))
+        elif v == NBSP:
+            toks.append(rng.choice([("mtext", NBSP), ("mtext", NNBSP), ("mo", NBSP), ("mtext", "\u2009"), ("mspace", "0.3em"), ("mspace", "thickmathspace")]))
         else:
             toks.append((rng.choice(["mo", "mo", "mtext"]), v))
     return toks
@@ -56,7 +60,7 @@ def tokens_partial_split(parts, rng):
 
 
 def tok_xml(toks):
-    return "".join(f"<{t}>{mml.esc_text(v)}</{t}>" for t, v in toks)
+    return "".join(f"<mspace width='{v}'/>" if t == "mspace" else f"<{t}>{mml.esc_text(v)}</{t}>" for t, v in toks)
 
 
 CONTEXTS = {
@@ -177,7 +181,7 @@ def run(ctx):
                     continue
                 lv = leaves(r["v"])
                 mv = [(["mn", "mo", "mtext", "mi"][t] if t < 3 else "mi", v) for t, v in m["v"]]
-                in_guard = not any(v == "'" for _, v in toks) and not any(NBSP in v or NNBSP in v or v.strip() == "" for _, v in toks) and "..." not in "".join(v for _, v in toks) and \
+                in_guard = not any(v == "'" or t == "mspace" for t, v in toks) and not any(NBSP in v or NNBSP in v or v.strip() == "" for _, v in toks) and "..." not in "".join(v for _, v in toks) and \
                     not any(t == "mo" and v == "." for t, v in toks[-1:])
                 if in_guard and lv is not None and [v for _, v in lv] != [v for _, v in mv]:
                     disagreements.append({"what": "merge scan", "tokens": toks, "block": block, "decimal": dec, "impl": lv, "model": mv,
@@ -272,6 +276,15 @@ def run(ctx):
         seps[tag] = ([r.get("v") if r.get("r") == "ok" else {"r": r.get("r")} for r in rep[:2]], [leaves(r["v"]) if r.get("r") == "ok" else {"r": r.get("r")} for r in rep[2:]], reqs[1:])
         n_tags += 1
         evals += 1
+    # ... and they are the separators the regenerated preference model (MC.Model.Prefs over Gen.Prefs: the decimal-point countries of prefs.rs) derives
+    n_tag_model = 0
+    for tag in TAGS:
+        mrep = mo.run([{"op": "prefs_run", "ops": [["init"], ["set", "DecimalSeparator", "Auto", None, True], ["set", "Language", tag, None, True], ["get", "DecimalSeparators"], ["get", "BlockSeparators"]]}])[0]
+        want = [r.get("v") if r.get("r") == "ok" else {"r": r.get("r")} for r in (mrep.get("v") or [])[3:5]]
+        n_tag_model += 1
+        evals += 1
+        if want != seps[tag][0]:
+            disagreements.append({"what": "separators of a language tag", "tag": tag, "impl": seps[tag][0], "model": want, "lines": seps[tag][2]})
     for tag in TAGS:
         low = tag.lower()
         if low != tag and low in seps and seps[tag][:2] != seps[low][:2]:
@@ -280,7 +293,7 @@ def run(ctx):
     im.close()
     mo.close()
     ctx.coverage.update({
-        "separator_switches_inside_a_session": n_switch, "language_tags": n_tags,
+        "separator_switches_inside_a_session": n_switch, "language_tags": n_tags, "language_tags_against_the_preference_model": n_tag_model,
         "evaluations": evals, "distinct_nontrivial": len(nontriv),
         "rule": "H4: generated/mutated number strings (locale grammar, hex blocks, U+FFFF digit runs, junk) on the 7 regexes in 4 separator settings; merge scan: full / partial / junk-injected token "
                 "splits in a neutral context; oracle: unsplit vs full and partial splits in 5 contexts (sum, exponent, fraction, argument, end of sentence) x 4 settings, canonical MathML + speech + braille; "
@@ -301,7 +314,7 @@ def run(ctx):
     if disagreements and not found:
         d = disagreements[0]
         ctx.violation("model and implementation disagree on number folding: " + json.dumps({k: v for k, v in d.items() if k != "lines"}, ensure_ascii=False)[:400],
-                      {"kind": "correspondence", "correspondence": "MC.Numbers scanners/mergeRow vs verif_number_patterns/set_mathml", "cases": [{k: v for k, v in x.items() if k != "lines"} for x in disagreements[:5]],
+                      {"kind": "correspondence", "correspondence": "MC.Numbers scanners/mergeRow vs verif_number_patterns/set_mathml; MC.Prefs separators vs get_preference", "cases": [{k: v for k, v in x.items() if k != "lines"} for x in disagreements[:5]],
                        "lines": d["lines"]}, tag="corr", no_input=True)
 
 
